@@ -3,7 +3,7 @@ History + model: every pck[fsel](x, y, z) call at seeded interior cell centres o
 covering level is compared with the stored cell value; outside points must be refused."""
 import os, random
 import numpy as np
-from .. import common, gen, workload, pools
+from .. import common, gen, workload, pools, endurance
 
 ID = "C19"
 LEVEL = "exploration"
@@ -17,7 +17,7 @@ ASSUMPTIONS = ["scipy cubic-spline interpolation is exact at knots up to roundin
                "generator trusted"]
 # the share of cases also run under python -O (1 = all): the anchor code validates with assert statements
 OPT_SUBSET = {"quick": 1, "thorough": 2}
-REQUIRED_OBS = {"queries": 300, "level_gt0": 30, "nonzero_origin": 100, "outside_refused": 30, "outside_within_a_cell": 100,
+REQUIRED_OBS = {"endurance_calls": 100, "queries": 300, "level_gt0": 30, "nonzero_origin": 100, "outside_refused": 30, "outside_within_a_cell": 100,
                 "multi_field": 100}
 TIMEOUT = {"quick": 300, "thorough": 1500}
 
@@ -45,7 +45,8 @@ def cases(tier, seed):
     for k in range(1 if tier == "quick" else 4):
         cs.append({"scale": "bigbox", "gen": dict(seed=seed * 31 + 1919 + k, nfields=2), "sel_seed": seed * 71 + 1919 + k,
                    "npts": 40 if tier == "quick" else 90, "fmt": {}})
-    return workload.add_reach_store(cs)
+    # M10: the same operation repeated in one process under a low open-file limit (vlib/endurance.py)
+    return list(workload.add_reach_store(cs)) + [endurance.case("points", tier, seed)]
 
 
 def setup():
@@ -53,6 +54,8 @@ def setup():
 
 
 def run_case(case, work, rec):
+    if case.get("kind") == "endurance":
+        return endurance.run_case(case, work, rec)
     from amr_kitchen import PlotfileCooker
     rng = random.Random(case["sel_seed"])
     m, path = workload.build(case, work)
